@@ -69,7 +69,7 @@ def main():
             print(out1[-600:] if not fails_with else "")
             print(outs[-600:] if not suite_ok else "")
             return 1
-        dst = "/verif/seeded/%s_m%s" % (P, N)
+        dst = "/verif/seeded/%s_m%d" % (P, int(N) + int(os.environ.get("SEED_OFFSET", "0")))
         os.makedirs(dst, exist_ok=True)
         shutil.copy(patch, os.path.join(dst, "patch.diff"))
         if os.path.exists(demo_rs):
